@@ -189,8 +189,8 @@ var registry = []propertySpec{
 		ID:    "C13",
 		Files: map[string][]string{"": {"zz_verif_lib.go", "zz_verif_c13.go"}},
 		Harnesses: []harnessSpec{
-			{Name: "VerifC13_History", Quick: tierSpec{Cases: 2, Split: 1}, Thorough: tierSpec{Cases: 3, Split: 2}, Sched: -1,
-				Bounds: "every history of 1 and 2 (thorough: and 3) operations over 24 edits (AddNode, DeleteNode, SetNodes, AddIndividual new/clashing/symbolic pointer, AddFamily, Set/Clear Husband/Wife, SetHusbandPointer/SetWifePointer, AddFamilyWithHusbandAndWife, AddChild, AddName, AddBirthDate, AddDeathDate, SetSex, DeleteNode of a grandchild, Document.AddNode, Document.SetNodes, Document.DeleteNode of a family / an individual) and 7 reads (views, Warnings, String, Compare, SurroundingSimilarity, CompareNodes+Sort, DeepCopy into another document) on a 3-person family; views read twice so that caches are warm"},
+			{Name: "VerifC13_History", Quick: tierSpec{Cases: 4, Split: 1}, Thorough: tierSpec{Cases: 6, Split: 2}, Sched: -1,
+				Bounds: "every history of 1 and 2 (thorough: and 3) operations over 24 edits (AddNode, DeleteNode, SetNodes, AddIndividual new/clashing/symbolic pointer, AddFamily, Set/Clear Husband/Wife, SetHusbandPointer/SetWifePointer, AddFamilyWithHusbandAndWife, AddChild, AddName, AddBirthDate, AddDeathDate, SetSex, DeleteNode of a grandchild, Document.AddNode, Document.SetNodes, Document.DeleteNode of a family / an individual) and 7 reads (views, Warnings, String, Compare, SurroundingSimilarity, CompareNodes+Sort, DeepCopy into another document) on a 3-person family and on a three-generation document (a person who is a spouse in one family and a child in a later one); views read twice so that caches are warm"},
 		},
 		Assumptions: []string{"relation views that crash on dangling references are rendered as PANIC on both sides (crashes are C14's subject)"},
 		Outside:     "histories longer than 2 (thorough: 3) operations, publish and query as reads (their purity is asserted in the C14/C15 harnesses), other documents",
